@@ -1220,6 +1220,21 @@ def shrink(spec, kind, allow_s=None):
                 if time.time() >= deadline: break
                 cand = dict(cur, chain=[cur["chain"][i]])
                 if still(cand): cur = cand; break
+            # ... and make one linear pass over the history steps, the look-ups inside reads and the filters (each tried once)
+            i = 0
+            while i < len(cur["history"]) and len(cur["history"]) > 1 and time.time() < deadline:
+                cand = dict(cur, history=cur["history"][:i] + cur["history"][i+1:])
+                if still(cand): cur = cand
+                else: i += 1
+            for i, o in enumerate(cur["history"]):
+                if op_peek(o) is not None and time.time() < deadline:
+                    cand = dict(cur, history=cur["history"][:i] + [op_without_peek(o)] + cur["history"][i+1:])
+                    if still(cand): cur = cand
+            i = 0
+            while i < len(cur["chain"]) and time.time() < deadline:
+                cand = dict(cur, chain=cur["chain"][:i] + cur["chain"][i+1:])
+                if still(cand): cur = cand
+                else: i += 1
     changed = True
     while changed and (deadline is None or time.time() < deadline):
         changed = False
